@@ -63,7 +63,7 @@ func init() {
 	})
 	register(&Prop{
 		ID:    "C07",
-		Rules: []func(*core.Ctx){RSeq, RFwdOnly, RSentinelArg, RUnitCmp, RPrevInit, RMapState},
+		Rules: []func(*core.Ctx){RSeq, RFwdOnly, RSentinelArg, RUnitCmp, RPrevInit, RMapState, RMinLenZero, RNoMatchExit},
 		Explanation: "Structural skeleton of match iteration on SSA: R-NEXT (every continued search passes X.textpos and X.RuneLength of the same match X), R-EMPTYBUMP (after an empty previous match every path bumps before searching; stop tests use the direction-selected stoppos), R-ADVANCE (loop variant of scan's attempt loop), R-TEXTPOS (both arms of tidyMatch record the resume position), R-DIRFOLD (folds over the match sequence are direction-aware), R-COUNTN (the find-all limit is charged only for reported matches). " +
 			"Necessary for ordered, terminating iteration. Strict monotonicity of the returned matches (which depends on findFirstChar/execute never moving the attempt position backwards) and the length+1 bound are NOT decided.",
 	})
@@ -75,7 +75,7 @@ func init() {
 	})
 	register(&Prop{
 		ID:    "C03",
-		Rules: []func(*core.Ctx){ROrigin, RMode, RMinLen, RRtlFilter, RFixedDistSib, RTableDom, RLmMin, RDirTrunc, RSentinel, RBumpWalk, RDeadCopy, RFwdOnly, RCaseBit, RLmAlt, RFailProp},
+		Rules: []func(*core.Ctx){ROrigin, RMode, RMinLen, RRtlFilter, RFixedDistSib, RTableDom, RLmMin, RDirTrunc, RSentinel, RBumpWalk, RDeadCopy, RFwdOnly, RCaseBit, RLmAlt, RFailProp, RMinLenZero},
 		Explanation: "R-ORIGIN (a candidate proposed by the accelerator never becomes the \\G origin: interprocedural taint from the filter result to scan's textstart), R-MODE (producer/consumer agreement on the find-mode record: every field a finder arm reads is assigned before the mode is set; accepted modes have a finder), R-MINLEN (the minimum-length fact is used only as a bound on the remaining length), R-RTLFILTER, R-TABLEDOM (every entry the Boyer-Moore builder records is within reach of the scanner's lookups: writer/reader guard agreement), R-LMMIN (the landmark-chain search continues from the minimal, not the greedy, end of a landmark). " +
 			"Structural conditions for the accelerator to be a pure accelerator. The arithmetic of each finder and the truth of the facts (C04) are NOT decided.",
 	})
@@ -129,7 +129,7 @@ func init() {
 	})
 	register(&Prop{
 		ID:    "C08",
-		Rules: []func(*core.Ctx){RCapNorm, RLastCap, RNonNegLen, RRuneWidth, RLazyTable, RStepDecode, RStrText, RUnits, RUnitCmp, RRuneLenNeg, RCompactSib, RLazyFull, RMapState},
+		Rules: []func(*core.Ctx){RCapNorm, RLastCap, RNonNegLen, RRuneWidth, RLazyTable, RStepDecode, RStrText, RUnits, RUnitCmp, RRuneLenNeg, RCompactSib, RLazyFull, RMapState, RValidFlag, RRefDepth},
 		Explanation: "R-CAPNORM (capture lengths are computed after the end<start swap), R-LASTCAP (a group's embedded capture is its last one; group 0 has exactly one capture from matches[0]: affine evaluation of the index expressions), R-RUNEWIDTH (every byte mapper that sizes runes with RuneLen re-decodes under RuneError), R-STRTEXT (string entry points build match text from the original string), R-UNITS (byte offsets never become rune positions). " +
 			"0 <= index <= index+length <= len for every capture (which depends on the interpreter's positions), balancing compaction and value-for-value agreement of the mappers are NOT decided.",
 	})
